@@ -54,9 +54,7 @@ def tokenWitnesses : List String := [
   "a{\nb\n"  /- brace-glued-to-word -/,
   "a {\n\tb }\n"  /- close-brace-not-first-on-line -/,
   "{\n\ta <<EOF\n\tEOF\n\n}\n"  /- empty-heredoc -/,
-  "\\{ 200\n"  /- escape -/,
-  "<<EOF\n\nEOF<<EOF\n\\"  /- glued-after-quote -/,
-  "a\n\\\n}"  /- line-continuation-without-token-before -/,
+  "a \\\"b  c\\\"\n"  /- escape -/,
   "a { b }\n"  /- multiple-risky-constructs -/,
   "a\n{\n\tb\n}\n"  /- open-brace-first-on-line -/,
   "a {\n} b\n"  /- token-after-close-brace-on-same-line -/,
@@ -66,13 +64,10 @@ def tokenWitnesses : List String := [
 
 /-- inputs on which `Format` is not idempotent (one per known class) -/
 def idemWitnesses : List String := [
-  "\n<<EOF \n  \"a\\\\b\" <<EOF\n\t\t{\n\t\t}\n\t\tEOF\n"  /- angle-word -/,
+  "# \"quoted\" text \r\n< a< <<EOF  \r\n  \r\n\r\n\r\n\t  <<EOF\t<< <<\n <<a b\r\na\"b\r\n"  /- angle-word -/,
   "{}{"  /- brace-glued-to-word -/,
-  "a {\n\\"  /- escape -/,
-  "<<EOF\n\nEOF\r<\n\n<<EOF\n{\n }"  /- glued-after-quote -/,
-  "b {\n\\\nb"  /- line-continuation-without-token-before -/,
-  "a{\\"  /- multiple-risky-constructs -/,
-  "b { \\\nb"  /- token-after-open-brace-on-same-line -/
+  "\\\u00a0#\u00a0{x}\u00a0{x}{"  /- escape -/,
+  "{}{ }"  /- multiple-risky-constructs -/
 ]
 
 /-- the protocol lines of the counter-examples -/
